@@ -16,7 +16,13 @@ RULE = ("Balancing problems are JSON descriptions (species -> composition incl. 
         "integer null vector (60 %), planted with one species moved to the wrong side (25 %), free (15 %).  'textbook': "
         "46 literature reactions given as formulas (chempy parses them; the oracle uses an own mini-parser), optionally "
         "reversed / one species moved, dropped or added.  Every case is run with underdetermined=True, False and None. "
-        "'duplicates': the same problems with 1-2 species listed on both sides, allow_duplicates=True, mode None.  The "
+        "'duplicates': the same problems with 1-2 species listed on both sides, allow_duplicates=True, mode None.  "
+        "'large': 7-16 species with a 1-3 dimensional solution space by construction (a positive vector and a placement "
+        "are drawn, the species are joined by a forest of pairwise keys, the keys are then mixed, duplicated, one turned "
+        "into a signed charge row; one species moved to the wrong side or dropped in 30 %), and unions of 2-5 disjoint "
+        "textbook reactions as formulas.  'fractional': 2-7 formula-like species over O + 1-3 elements where one or two "
+        "species carry one or two decimal subscripts (tenths, steps of 0.05, quarters, A(x)B(1-x)), as composition dicts "
+        "or as formulas parsed by chempy ('La0.6Sr0.4CoO3'); the oracle reads the decimals as exact Fractions.  The "
         "oracle is exact (Fraction RREF null space, enumerated / certificate-checked feasibility, exhaustive search for "
         "a smaller coefficient sum).  Non-trivial = at least one mode returned an answer, or the case is a planted "
         "wrong-side case (all modes must refuse); distinct by case digest.")
@@ -30,7 +36,9 @@ RULE = ("Balancing problems are JSON descriptions (species -> composition incl. 
 ASSUMPTIONS = ["scipy.optimize.linprog (HiGHS) only proposes witnesses/certificates; each is verified with Fractions",
                "vlib/refdata.py symbol->Z table for the textbook formulas",
                "minimal-sum clause certified by complete enumeration only when (sum-n)^nullity <= 3e6, else counted "
-               "as minimality_skipped"]
+               "as minimality_skipped",
+               "a call whose external CBC process runs longer than CBC_TIMEOUT_S is killed and counted as "
+               "inconclusive (the property speaks about what is returned; ordinary calls need 0.02-0.5 s)"]
 
 MODES = (True, False, None)
 
@@ -63,6 +71,57 @@ def _call_args(case, Substance):
     elif how == "string":
         kw["substances"] = " ".join(list(case["reac"]) + [p for p in case["prod"] if p not in case["reac"]])
     return reac, prod, kw
+
+
+# underdetermined=None hands the integer programme to an external CBC process without any limit.  For a few inputs
+# (no upper bounds, non-integer matrix entries, e.g. {H2.4 O0.75} + {HO} -> {H0.4 O0.6} + {H2}) CBC keeps branching for
+# many minutes.  The property speaks about what balancing *returns*, so such a call is inconclusive: after
+# CBC_TIMEOUT_S the CBC child processes of this worker are killed (pulp then raises) and the mode is skipped.
+# Ordinary calls take 0.02-0.1 s.
+CBC_TIMEOUT_S = 4.0
+
+
+def _kill_cbc_children():
+    """Kill the CBC processes started by this worker; returns the model files they were given (pulp leaves them)."""
+    import psutil
+    files = []
+    for ch in psutil.Process().children(recursive=True):
+        try:
+            if ch.name().startswith("cbc"):
+                files.extend(a for a in ch.cmdline()[1:] if a.endswith("-pulp.mps"))
+                ch.kill()
+                files.append(None)
+        except psutil.Error:
+            pass
+    return files
+
+
+def _sut_guarded(fn, *a, **k):
+    """sut(fn, ...) with the CBC watchdog.  Returns (result, timed_out)."""
+    import signal
+    import threading
+    if threading.current_thread() is not threading.main_thread():
+        return sut(fn, *a, **k), False
+    state = {"killed": []}
+
+    def on_alarm(signum, frame):
+        state["killed"].extend(_kill_cbc_children())
+
+    old = signal.signal(signal.SIGALRM, on_alarm)
+    signal.setitimer(signal.ITIMER_REAL, CBC_TIMEOUT_S, 1.0)     # repeat: a child started a moment later is caught too
+    try:
+        res = sut(fn, *a, **k)
+    finally:
+        signal.setitimer(signal.ITIMER_REAL, 0)
+        signal.signal(signal.SIGALRM, old)
+        import os
+        for f in state["killed"]:
+            for ext in (".mps", ".sol", ".mst", ".lp") if f else ():
+                try:
+                    os.remove(f[:-4] + ext)
+                except OSError:
+                    pass
+    return res, bool(state["killed"])
 
 
 def _mode_name(mode):
@@ -148,7 +207,8 @@ def _minimality(ctx, an, ints, mname, names):
         return
     ctx.label("minimality_checked")
     if better is not None:
-        ctx.fail("not_minimal_coefficient_sum", mode=mname, got=ints, smaller=better, species=names)
+        ctx.fail("not_minimal_coefficient_sum", mode=mname, got=ints, smaller=better, species=names,
+                 nullity=an["nullity"], sum_got=total, sum_smaller=sum(better))
 
 
 def check_balance(case, ctx):
@@ -180,7 +240,10 @@ def check_balance(case, ctx):
     for mode in MODES:
         mname = _mode_name(mode)
         reac, prod, kw = _call_args(case, Substance)
-        res = sut(bs, reac, prod, underdetermined=mode, **kw)
+        res, timed_out = _sut_guarded(bs, reac, prod, underdetermined=mode, **kw)
+        if timed_out:
+            ctx.skip("cbc_killed_after_%gs" % CBC_TIMEOUT_S)
+            continue
         if is_err(res):
             ctx.label("%s:raised" % mname)
             if res.type != "ValueError":
@@ -273,7 +336,10 @@ def check_duplicates(case, ctx):
     if identical:
         ctx.label("identical_sides")
     reac, prod, kw = _call_args(case, Substance)
-    res = sut(bs, reac, prod, underdetermined=None, allow_duplicates=True, **kw)
+    res, timed_out = _sut_guarded(bs, reac, prod, underdetermined=None, allow_duplicates=True, **kw)
+    if timed_out:
+        ctx.skip("cbc_killed_after_%gs" % CBC_TIMEOUT_S)
+        return
     if is_err(res):
         ctx.label("raised")
         if res.type != "ValueError":
